@@ -7,7 +7,8 @@
 (* For the libraries of <= WideModes modes two more dimensions are explored: the configuration of the add/drop *)
 (* stages (profiles listed in any order, profile id 0 selected / nothing selected / no profile at all) and     *)
 (* batches of two requests with the same ends and mode on equal or different routes, or differing only in      *)
-(* their bidirectional flag; a user-defined spectrum whose carriers have different transmitter OSNR.            *)
+(* their bidirectional flag; a user-defined spectrum whose carriers have different transmitter OSNR; a ROADM     *)
+(* profile listing overlapping frequency ranges (what a stage contributes depends on the carrier).               *)
 EXTENDS Feasibility, Json, TLC
 
 CONSTANTS MaxModes, WideModes
@@ -34,14 +35,22 @@ WitnessCodes == {c \in 0..(NCodes - 1) : Fields(c).f = 1 /\ Fields(c).d \in {-1,
 MCWitnessLibs == LibsOver(WitnessCodes)
 MCWitnessLibs1 == {l \in MCWitnessLibs : Len(l) = 1}       \* the libraries carrying the stage / batch dimensions
 \* add/drop stage configurations: P lists add profile 3 BEFORE add profile 0 and drop profile 2 before drop profile 1
-P == <<[id |-> 3, kind |-> "add", inv |-> 100], [id |-> 0, kind |-> "add", inv |-> 400],
-       [id |-> 2, kind |-> "drop", inv |-> 150], [id |-> 1, kind |-> "drop", inv |-> 700]>>
+\* every profile of P covers the band with one range; Q lists OVERLAPPING ranges: add profile 3 a narrow poor range
+\* (carrier 1 only) BEFORE the range covering both carriers, drop profile 2 the covering range before a narrow one
+\* (shadowed: it never applies), and a range without OSNR listed first (it does not apply either)
+One(inv) == <<[lo |-> 1, hi |-> 2, inv |-> inv]>>
+P == <<[id |-> 3, kind |-> "add", ranges |-> One(100)], [id |-> 0, kind |-> "add", ranges |-> One(400)],
+       [id |-> 2, kind |-> "drop", ranges |-> One(150)], [id |-> 1, kind |-> "drop", ranges |-> One(700)]>>
+Q == <<[id |-> 3, kind |-> "add", ranges |-> <<[lo |-> 1, hi |-> 1, inv |-> 900], [lo |-> 1, hi |-> 2, inv |-> 100]>>],
+       [id |-> 2, kind |-> "drop", ranges |-> <<[lo |-> 1, hi |-> 2, inv |-> NONE], [lo |-> 1, hi |-> 2, inv |-> 150],
+                                                [lo |-> 2, hi |-> 2, inv |-> 800]>>]>>
 St(kind, sel, profiles) == [kind |-> kind, sel |-> sel, profiles |-> profiles, dflt |-> 250]
 MCDefaultStages == <<St("add", NONE, <<>>), St("drop", NONE, <<>>)>>
 MCStageConfigs == {MCDefaultStages,
                    <<St("add", NONE, P), St("drop", NONE, P)>>,         \* nothing selected: first listed of the kind
                    <<St("add", 0, P), St("drop", NONE, P)>>,            \* profile 0 selected on the add degree
-                   <<St("add", 3, P), St("drop", 1, P)>>}
+                   <<St("add", 3, P), St("drop", 1, P)>>,
+                   <<St("add", NONE, Q), St("drop", 2, Q)>>}              \* overlapping ranges: first listed wins
 MCRoutes == {1, 2}
 MCCarriers == {1, 2}
 MCMixed == (1 :> 30) @@ (2 :> 6000)          \* the first carrier has the better transmitter
@@ -84,6 +93,9 @@ WitnessTags == /\ (~WitnessProfileZero => PrintT("@@" \o ToJson("ProfileZero")))
                /\ (~WitnessSameRoute => PrintT("@@" \o ToJson("SameRoute")))
                /\ (~WitnessMixedSpectrum => PrintT("@@" \o ToJson("MixedSpectrum")))
                /\ (~WitnessMixedFlags => PrintT("@@" \o ToJson("MixedFlags")))
+               /\ ((last # 0 /\ stages[1].profiles = Q /\ rx[1] = line[1] + lib[last].tx + 900 + 150
+                                                          /\ rx[2] = line[2] + lib[last].tx + 100 + 150)
+                     => PrintT("@@" \o ToJson("OverlappingRanges")))
                /\ ((Done /\ Len(si) = 2 /\ ~si[1].dflt /\ ~si[2].dflt) => PrintT("@@" \o ToJson("NamedSI")))
 WitnessUnjudgedPick == ~(Done /\ out.block = NoBlock /\ out.sel # 0 /\ Unjudged(lib[out.sel]))
 ==============================================================================
